@@ -60,8 +60,10 @@ class ListBuilder(Periodic):
                                 local_set.add(bytes.fromhex(pubkey))
                                 pubkey_count += 1
                     event_count += 1
-                global_set.clear()
+                # add before removing: validators on worker threads must never see an
+                # enforced list as empty (which means "not enforced") halfway through
                 global_set.update(local_set)
+                global_set.intersection_update(local_set)
                 self.log.info(
                     "Loaded %s list with %d pubkeys from %d events",
                     list_kind,
